@@ -104,6 +104,12 @@ type Persist struct {
 	SignLog  []SignRec // every signature the key released, over all incarnations
 	TxPlan   func(inc int, height int64) []types.Tx
 	baseRoot string
+	// WALAcked: every WAL record whose synced write was acknowledged, over all incarnations so far, in write order
+	// (C15: "returned by any later reader" - also after further crashes and restarts; the node's head limit of 10 MB
+	// is never reached, so the size limit discards nothing); WALAckedBy[i] = incarnation ordinal of record i
+	WALAcked   []consensus.WALMessage
+	WALAckedBy []int
+	boots      int
 }
 
 type SignRec struct {
@@ -480,11 +486,14 @@ type PNode struct {
 	TokensSent      int
 	logger          errLogger
 	HandshakeBlocks int
+	carried         bool
+	ordinal         int // 0 for the first Boot on this Persist, 1 for the next, ...
 }
 
 // Boot starts an incarnation from p. An injected crash during recovery surfaces as (*PNode with Snap set, sig).
 func Boot(p *Persist, armAt int) (n *PNode, crashed *CrashSignal, err error) {
-	n = &PNode{P: p, C: NewCrasher(), logger: newErrLogger()}
+	n = &PNode{P: p, C: NewCrasher(), logger: newErrLogger(), ordinal: p.boots}
+	p.boots++
 	n.C.ArmAt = armAt
 	n.C.OnCrash = n.snapshot
 	p.App.OnCall = func(m string) { n.C.Point("app." + m) }
@@ -612,6 +621,7 @@ func (n *PNode) snapshot() {
 // halt stops what is left of this incarnation (after a crash or at the end of a case).
 func (n *PNode) halt() {
 	n.P.App.OnCall = nil
+	defer n.carryAcked()
 	if n.started {
 		select {
 		case <-n.CS.VerifDone():
@@ -640,6 +650,18 @@ func (n *PNode) halt() {
 	}
 	if n.Proxy != nil {
 		n.Proxy.Stop() //nolint
+	}
+}
+
+// carryAcked hands the incarnation's acknowledged WAL records over to the persistent journal (once).
+func (n *PNode) carryAcked() {
+	if n.WAL == nil || n.carried {
+		return
+	}
+	n.carried = true
+	for _, m := range n.WAL.Acked {
+		n.P.WALAcked = append(n.P.WALAcked, m)
+		n.P.WALAckedBy = append(n.P.WALAckedBy, n.ordinal)
 	}
 }
 
